@@ -4,31 +4,34 @@
 # /repo's working tree, and writes one line per change to seeded/REGRESSION.txt. /repo is restored after every run.
 # Sequential; needs /repo clean and nobody else using it (no sweep, no other run_seeded).
 cd /verif
+# REGRESS_REPO=<worktree of /repo> runs against that checkout (driver's VERIF_REPO override) and leaves /repo alone.
+R=${REGRESS_REPO:-/repo}
+[ "$R" != /repo ] && export VERIF_REPO=$R
 out=seeded/REGRESSION.txt
 names=("$@")
 if [ ${#names[@]} -eq 0 ]; then names=($(ls seeded | grep -v REGRESSION)); : > $out; else for n in "${names[@]}"; do sed -i "/^$n /d" $out; done; fi
-if ! git -C /repo diff --quiet; then echo "/repo working tree is dirty; refusing"; exit 2; fi
+if ! git -C $R diff --quiet; then echo "$R working tree is dirty; refusing"; exit 2; fi
 for name in "${names[@]}"; do
   d=seeded/$name
   [ -f $d/patch.diff ] || continue
   prop=$(jq -r .property $d/meta.json 2>/dev/null)
   note=$(jq -r '.history // ""' $d/meta.json | grep -o "NOT A VIOLATION[^,;:]*" | head -1)
-  if ! git -C /repo apply --check /verif/$d/patch.diff 2>/dev/null; then
-    if git -C /repo apply --3way /verif/$d/patch.diff >/dev/null 2>&1; then
-      git -C /repo reset -q
+  if ! git -C $R apply --check /verif/$d/patch.diff 2>/dev/null; then
+    if git -C $R apply --3way /verif/$d/patch.diff >/dev/null 2>&1; then
+      git -C $R reset -q
     else
-      git -C /repo reset -q --hard
+      git -C $R reset -q --hard
       echo "$name $prop SKIPPED (patch against 8654bb4 does not apply to the current head)" | tee -a $out; continue
     fi
   else
-    git -C /repo apply /verif/$d/patch.diff
+    git -C $R apply /verif/$d/patch.diff
   fi
   t0=$(date +%s)
   res=$(./check $prop quick 2>&1); rc=$?
   t1=$(date +%s)
-  git -C /repo reset -q --hard
+  git -C $R reset -q --hard
   sig=$(echo "$res" | grep -m1 "witness \[" | sed 's/^ *witness \[\([^]]*\)\].*/\1/')
   echo "$name $prop exit=$rc $((t1-t0))s ${sig:-none} $note" | tee -a $out
 done
 rm -f /verif/replay/*.json
-git -C /repo status --short | head -3
+git -C $R status --short | head -3
